@@ -8,7 +8,6 @@ import traceback
 
 from . import loader, report
 
-LEVELS = {'C15': 'proof', 'C17': 'proof', 'C19': 'proof'}
 
 
 def run_property(prop, tier, quiet=False):
